@@ -184,10 +184,13 @@ Proof.
   pose proof (dec_digits_are_digits 20 x Hx) as Hd. rewrite forallb_forall in Hd. apply Hd, Hc.
 Qed.
 
+Lemma dec_digits_rev_nonempty f x : dec_digits_rev (S f) x <> [].
+Proof. change (dec_digits_rev (S f) x) with (if x <? 10 then [48 + x] else (48 + x mod 10) :: dec_digits_rev f (x / 10)). destruct (x <? 10); discriminate. Qed.
+
 Lemma print_dec_nonempty x : print_dec x <> [].
 Proof.
-  unfold print_dec. cbn [dec_digits_rev]. destruct (x <? 10); cbn [rev]; intros E;
-    apply (f_equal (@List.length Z)) in E; rewrite app_length in E; cbn in E; lia.
+  unfold print_dec. intros E. apply (f_equal (@rev Z)) in E. rewrite rev_involutive in E.
+  exact (dec_digits_rev_nonempty 19 x E).
 Qed.
 
 (** * Human-readable part: printing then parsing *)
@@ -207,7 +210,7 @@ Proof.
     destruct Hst as [-> | [-> | ->]]; reflexivity. }
   rewrite Hn.
   destruct ds as [|d2 ds].
-  - cbn [app]. rewrite app_nil_r. reflexivity.
+  - cbn [app]. reflexivity.
   - rewrite IH; [| right; right; reflexivity | discriminate | exact Hds].
     rewrite <- app_assoc. reflexivity.
 Qed.
